@@ -18,8 +18,9 @@ REGISTRY = {
     'text': 'Lean theorems about an executable model of fragmentation.py (span lists = prefixes/suffixes/strictly internal/single '
             'residues, duplicate free; the key list of fragment is duplicate free and is exactly the product ion type x its spans x '
             'isotopes x applicable losses x charges; each mass = table offset + sum of the per-residue components of its own span; all '
-            'return types and Fragmenter are projections of one list; numbering/label laws), for every length and every weight '
-            'function. The model is tied to /repo by differential correspondence (fragment, Fragmenter, get_losses, get_number, '
+            'return types and Fragmenter are projections of one list; numbering/label laws; slices carry the mods of their residues '
+            'and termini), for every length and every weight function; frag_mass_eq_mass: on the concrete mass model (fast path) the '
+            'ion mass equals mass(ion sequence, ion type, charge, isotope, loss). The model is tied to /repo by differential correspondence (fragment, Fragmenter, get_losses, get_number, '
             'get_label, slice, span helpers); the numeric clause "ion mass = mass(ion sequence, ...)" is evaluated on the real code',
     'note': 'trusted: Lean kernel, axioms propext/Classical.choice/Quot.sound, the correspondence harness; masses are abstract in the '
             'model (per-residue components and table constants are sent from Python as exact rationals), regex matching of loss '
@@ -713,7 +714,7 @@ def run(chk):
     tier, rng = chk.tier, chk.rng
     import time
     t0 = time.time()
-    chk.lean_build(['PeptVerif.Props.C04'], DRV)
+    chk.lean_build(['PeptVerif.Props.C04', 'PeptVerif.Props.C04Mass'], DRV)
     chk.notes.append('lean build + axiom audit: %.1f s' % (time.time() - t0))
     chk.trusted += [
         'masses are abstract in the Lean model: the per-residue components (mass(c, charge=0, ion_type="n") for c in split()) and the '
@@ -731,6 +732,7 @@ def run(chk):
         'argument mutation by fragment() (labile mods popped from the annotation, losses list appended to) belongs to C08: '
         'every call here gets fresh copies',
     ]
+    chk.exhaustive = (tier == 'thorough')      # the 2^16-1 ion-type subsets are enumerated completely in thorough
     chk.rule = ('peptides of length 1..12 over the 20 residues with N-/C-terminal, residue, static (residue and terminal targets), '
                 'isotope-label and labile mods (3% with unknown mods / intervals for the ValueError branch); ion types scalar or list '
                 '(random subsets, all 2^16-1 subsets in thorough), charges within 1..4, isotopes within 0..3, water/ammonia/custom '
@@ -924,7 +926,8 @@ def run(chk):
 
     chk.notes.append('correspondence + oracle: %.1f s' % (time.time() - t0))
     if tier == 'thorough':
-        chk.leanchecker(['PeptVerif.Model.Fragment', 'PeptVerif.Lemmas.Fragment', 'PeptVerif.Props.C04'])
+        chk.leanchecker(['PeptVerif.Model.Fragment', 'PeptVerif.Lemmas.Fragment', 'PeptVerif.Lemmas.FragmentMass',
+                         'PeptVerif.Props.C04', 'PeptVerif.Props.C04Mass'])
     return chk.finish(classify)
 
 
